@@ -122,6 +122,15 @@ def loop_common(lc, acc='Lformula'):
       + frame(he, h, he.alloc, {'sets': own})
 
 
+def complete_clause(lc, A, phi):
+    s, d = X('s'), X('d')
+    body = z3.Implies(z3.And(lc.seen[s, d], sat(phi)[d]), A[s])
+    q = z3.simplify(A[s])
+    if z3.is_app(q) and q.decl().kind() == z3.Z3_OP_SELECT and not hp._has_binder(A[s]):
+        return z3.ForAll([s, d], body, patterns=[z3.MultiPattern(A[s], sat(phi)[d])])
+    return z3.ForAll([s, d], body)
+
+
 def install(E):
     from .formula import FormulaExt
     E.ext.append(FormulaExt())
@@ -176,8 +185,7 @@ def install(E):
             ('operand', z3.ForAll([s], P[s] == sat(phi)[s])),
             ('operand_is_other_set', lc.env['Lphi'].t != lc.env['Lformula'].t),
             ('sound', z3.ForAll([s], z3.Implies(A[s], sat(f)[s]))),
-            ('complete_so_far', z3.ForAll([s, d], z3.Implies(z3.And(lc.seen[s, d], sat(phi)[d]), A[s]),
-                                          patterns=[z3.MultiPattern(A[s], sat(phi)[d])])),
+            ('complete_so_far', complete_clause(lc, A, phi)),
         ]
 
     reg(Contract(
